@@ -357,3 +357,173 @@ Theorem C18_factory_check_order_is_code : forall (rs : Params.str -> option (opt
 Proof. exact PGT.factory_check_order_is_code. Qed.
 Print Assumptions C18_factory_check_order_is_code.
 End C18_parameter_factories_are_code.
+
+(* ---- the process-level glue of transit_routing_http_server.cpp IS the code (tools/gen_handler_guards.py regenerates
+   gen/HandlerGuards.v from the current source on every run; Proofs/HandlerGuardsTie.v ties the model to it): the parameter keys
+   of /updateCache, the chain of update blocks in source order with the flag each sets, the status recomputed after the loop,
+   the success / error object; the text of getFastErrorResponse for every status; the codes of getResponseCode.  A dropped
+   `correctCacheName = true`, a removed alias, two swapped blocks, a table in another order, a dropped case stop this file
+   from compiling ---- *)
+From Coq Require String.
+From TrV Require Loader Loader2 Proofs.HandlerGuardsTie gen.HandlerGuards.
+Module HG := TrV.gen.HandlerGuards.
+Module HT := TrV.Proofs.HandlerGuardsTie.
+Section HandlerGlueC18.
+Import String.   (* local to this section: the string literals below *)
+
+(* which parameter of /updateCache is read as what: six spellings for the cache names, three for the custom path, in source
+   order; a parameter of any other key does nothing (in particular it is not taken for the path) *)
+Theorem C18_update_cache_keys_are_code : forall k,
+  HT.key_actions HG.gen_update_key_rules k =
+  if HT.text_in k ["names"; "caches"; "cache_names"; "name"; "cache"; "cache_name"]%string then [HG.KA_names]
+  else if HT.text_in k ["path"; "custom_path"; "custom_cache_path"]%string then [HG.KA_path]
+  else [].
+Proof. exact HT.update_keys_code. Qed.
+Print Assumptions C18_update_cache_keys_are_code.
+
+(* a cache name counts as known iff a block of the source's chain names it AND that block sets the flag; these are "all" and
+   the ten collection names; the response is Params.handle_update on exactly this notion of known: the error object iff no
+   name is known, else the success object listing every name from the first known one on *)
+Theorem C18_update_cache_names_are_code :
+  (forall n, HT.known n = existsb (fun it => match it with HG.Block c sets _ => HT.holds c n && sets | HG.Append _ _ => false end)
+                                  HG.gen_update_loop) /\
+  (forall n, HT.known n = true <-> n = "all"%string \/ exists k, n = HT.kind_name k) /\
+  (forall names path,
+     HT.update_response names path =
+     match handle_update (map HT.known_opt names) with
+     | UError => "{""status"": ""error"", ""error"": ""missing or wrong cache name""}"%string
+     | USuccess l => HT.success_body (HT.drop_last (HT.concat_text (map (fun i => String.append (nth i names ""%string) ","%string) l))) path
+     end) /\
+  HG.gen_update_status_line = "HTTP/1.1 200 OK"%string.
+Proof.
+  split; [exact HT.update_known_code|]. split; [exact HT.known_iff|].
+  split; [exact (fun names path => proj1 (HT.update_response_code names path))|reflexivity].
+Qed.
+Print Assumptions C18_update_cache_names_are_code.
+
+(* the chain of blocks is one block per kind of Loader2.handler_order, in that order, each selected by its own name or "all",
+   each setting the flag and handing the custom path to its update; run on any list of names the source's loop makes exactly
+   the updates of Loader2.update, in the same order ("all": every update, in the order of the blocks - not loadAllData) *)
+Theorem C18_update_cache_order_is_code :
+  HG.gen_update_loop = (map HT.block_of Loader2.handler_order ++ [HG.Append true ","%string])%list /\
+  (forall names, HT.u_calls (HT.update_code names) = flat_map HT.calls_of names) /\
+  HT.calls_of "all"%string = map HT.kind_method Loader2.handler_order /\
+  (forall k, HT.calls_of (HT.kind_name k) = [HT.kind_method k]) /\
+  (forall n, HT.known n = false -> HT.calls_of n = []) /\
+  (forall f names s,
+     Loader2.update f (map HT.cname_of names) s = fold_left (HT.apply_call f) (HT.u_calls (HT.update_code names)) s).
+Proof.
+  split; [exact HT.update_loop_code|]. split; [exact HT.update_calls_code|]. split; [exact HT.update_calls_all|].
+  split; [exact HT.update_calls_kind|]. split; [exact HT.update_calls_unknown | exact HT.update_is_code].
+Qed.
+Print Assumptions C18_update_cache_order_is_code.
+
+(* after the loop the status is recomputed from the collections, whatever the outcome, into the variable the three /v2
+   handlers read by reference: the status the endpoints answer from is Loader2.status_of *)
+Theorem C18_update_cache_status_is_code : forall success old s,
+  HT.status_after_code HG.gen_update_status_refresh success old s = Loader2.status_of s /\
+  HG.gen_update_status_shared_by_reference = true.
+Proof. exact HT.update_status_code. Qed.
+Print Assumptions C18_update_cache_status_is_code.
+
+(* getFastErrorResponse, evaluated for every enumerator of DataStatus (a switch, an if-chain and a table read the same):
+   READY gives the empty text - the only status that is not answered on the fast path, the test of Http.http_serve -, every
+   status the loader can produce gives the data_error object with the code naming the missing collection *)
+Theorem C18_data_error_codes_are_code :
+  (forall st, HG.gen_fast_error st = HT.fast_error_expected st) /\
+  (forall st, negb (String.eqb (HG.gen_fast_error st) ""%string) = negb (Nat.eqb st 0)) /\
+  (forall z, Loader.data_status z <> Loader.ST_READY ->
+     exists c, HT.status_error_code (Loader.data_status z) = Some c /\ HG.gen_fast_error (Loader.data_status z) = HT.data_error_body c) /\
+  HT.status_error_code Loader.ST_NO_AGENCIES = Some "MISSING_DATA_AGENCIES"%string /\
+  HT.status_error_code Loader.ST_NO_SERVICES = Some "MISSING_DATA_SERVICES"%string /\
+  HT.status_error_code Loader.ST_NO_NODES = Some "MISSING_DATA_NODES"%string /\
+  HT.status_error_code Loader.ST_NO_LINES = Some "MISSING_DATA_LINES"%string /\
+  HT.status_error_code Loader.ST_NO_PATHS = Some "MISSING_DATA_PATHS"%string /\
+  HT.status_error_code Loader.ST_NO_SCENARIOS = Some "MISSING_DATA_SCENARIOS"%string /\
+  HT.status_error_code Loader.ST_NO_SCHEDULES = Some "MISSING_DATA_SCHEDULES"%string /\
+  HT.status_error_code 1%nat = Some "DATA_ERROR"%string.
+Proof.
+  split; [exact HT.fast_error_code|]. split; [exact HT.fast_path_iff_not_ready|]. split; [exact HT.fast_error_of_data_status|].
+  repeat split; reflexivity.
+Qed.
+Print Assumptions C18_data_error_codes_are_code.
+
+(* getResponseCode: the enumerators of ParameterException::Type are the E_* of Params.v and the text for each is the spelling
+   of Params.response_code *)
+Theorem C18_query_error_codes_are_code : forall e, HG.gen_response_code e = HT.errcode_text (response_code e).
+Proof. exact HT.response_code_code. Qed.
+Print Assumptions C18_query_error_codes_are_code.
+End HandlerGlueC18.
+
+(* ---- the skeleton of the three /v2 handlers IS the code (gen/HandlerGuards.v `gen_v2_route`, `gen_v2_summary`,
+   `gen_v2_accessibility`, regenerated from the current transit_routing_http_server.cpp; Proofs/HandlerGuardsTie.v): the
+   data-status fast path, the factory, the calculator method for alternatives / single / accessibility, the renderer class, which
+   exception gives which answer with which status line.  `HT.handler_of ep` is the generated record of endpoint ep,
+   `HT.code_of_line "HTTP/1.1 400 OK" = 400` ---- *)
+Section HandlerGlueC18v2.
+Import String.   (* local to this section: the string literals below *)
+
+Theorem C18_v2_handlers_are_code :
+  HG.gen_v2_route = (HT.v2_expected "RouteParameters::createRouteODParameter" (Some "alternativesRouting") "calculateSingle" "ResultToV2Response")%string /\
+  HG.gen_v2_summary = (HT.v2_expected "RouteParameters::createRouteODParameter" (Some "alternativesRouting") "calculateSingle" "ResultToV2SummaryResponse")%string /\
+  HG.gen_v2_accessibility = (HT.v2_expected "AccessibilityParameters::createAccessibilityParameter" None "calculateAllNodes" "ResultToV2AccessibilityResponse")%string.
+Proof. exact HT.v2_handlers_code. Qed.
+Print Assumptions C18_v2_handlers_are_code.
+
+(* Http.http_serve, fast path: its test `status <> 0` is the source's `!getFastErrorResponse(dataStatus).empty()`, answered with
+   the status line of that branch; otherwise the factory of the endpoint (Http.parse), then the calculation, then the rendering *)
+Theorem C18_v2_fast_path_is_code : forall (uuid_of : Params.str -> option nat) sv st ep kvs acc egr,
+  http_serve uuid_of sv st ep kvs acc egr =
+  if HG.h_fast_path (HT.handler_of ep) && negb (String.eqb (HG.gen_fast_error st) ""%string)
+  then (HttpR (HT.code_of_line (HG.h_fast_status (HT.handler_of ep))) (HDataError st), sv)
+  else
+    let r := request_of uuid_of (sv_data sv) ep kvs acc egr in
+    let '(a, sv1) := serve sv r in
+    (render (sv_data sv) (is_summary ep) (echo_of_request r) a, sv1).
+Proof. exact HT.v2_fast_path_code. Qed.
+Print Assumptions C18_v2_fast_path_is_code.
+
+Theorem C18_v2_factory_and_renderer_are_code : forall (uuid_of : Params.str -> option nat),
+  (forall d ep kvs,
+     parse uuid_of d ep kvs =
+     if HT.factory_is_access (HG.h_factory (HT.handler_of ep))
+     then match create_access (resolve uuid_of d) (Http.services_of d) kvs with
+          | POk c => POk (c, false) | PErr e => PErr e | PExn => PExn
+          end
+     else create_route (resolve uuid_of d) (Http.services_of d) kvs) /\
+  (forall ep,
+     HT.factory_is_route (HG.h_factory (HT.handler_of ep)) = negb (HT.factory_is_access (HG.h_factory (HT.handler_of ep))) /\
+     is_summary ep = HT.renders_summary (snd (HG.h_single (HT.handler_of ep))) /\
+     (forall m r, HG.h_alt (HT.handler_of ep) = Some (m, r) -> r = snd (HG.h_single (HT.handler_of ep))) /\
+     (HG.h_alt (HT.handler_of ep) = None <-> ep = EAccess)).
+Proof. exact (fun uuid_of => conj (HT.v2_factory_code uuid_of) HT.v2_renderer_code). Qed.
+Print Assumptions C18_v2_factory_and_renderer_are_code.
+
+(* Server.respond IS the calculator method the handler calls: alternativesRouting when the query asks for alternatives,
+   calculateSingle otherwise, calculateAllNodes for /v2/accessibility *)
+Theorem C18_v2_calculation_is_code :
+  (forall ep d cs p alt acc egr, ep <> EAccess ->
+     HT.method_response (HT.handler_method (HT.handler_of ep) alt) d cs (QRoute p alt acc egr) = Some (respond d cs (QRoute p alt acc egr))) /\
+  (forall d cs p rows alt,
+     HT.method_response (HT.handler_method (HT.handler_of EAccess) alt) d cs (QAccess p rows) = Some (respond d cs (QAccess p rows))).
+Proof. exact HT.v2_calculation_code. Qed.
+Print Assumptions C18_v2_calculation_is_code.
+
+(* Http.render / render_outcome: a result and NoRoutingFoundException (caught inside, the renderer class's
+   noRoutingFoundResponse) are sent with the status line after the inner try (200); ParameterException gives the query error with
+   the code of getResponseCode = Params.response_code (400); anything else PARAM_ERROR_UNKNOWN (400) *)
+Theorem C18_v2_exceptions_are_code : forall ep,
+  (forall (A : Type) (x : A) ok nr, render_outcome (Ok x) ok nr = HttpR (HT.code_of_line (HG.h_ok_status (HT.handler_of ep))) (ok x)) /\
+  (exists r, HG.h_inner_catch (HT.handler_of ep) = [("NoRoutingFoundException"%string, r)]) /\
+  (forall (A : Type) reason (ok : A -> http_body) nr,
+     render_outcome (NoRouting reason) ok nr = HttpR (HT.code_of_line (HG.h_ok_status (HT.handler_of ep))) (nr reason)) /\
+  (exists body line, HT.catch_of (HT.handler_of ep) "ParameterException"%string = Some (body, line) /\
+     (forall d summary q c, render d summary q (AError c) = HttpR (HT.code_of_line line) (HQueryError (response_code c))) /\
+     (forall c, body (HG.gen_response_code c) = HT.query_error_body (HT.errcode_text (response_code c)))) /\
+  (exists body line, HT.catch_of (HT.handler_of ep) "..."%string = Some (body, line) /\
+     (forall (A : Type) t (ok : A -> http_body) nr,
+        render_outcome (Exn t) ok nr = HttpR (HT.code_of_line line) (HQueryError C_PARAM_ERROR_UNKNOWN)) /\
+     (forall c, body c = HT.query_error_body (HT.errcode_text C_PARAM_ERROR_UNKNOWN))).
+Proof. exact HT.v2_exceptions_code. Qed.
+Print Assumptions C18_v2_exceptions_are_code.
+End HandlerGlueC18v2.
